@@ -1041,7 +1041,7 @@ def nontrivial_tracker(case, obs):
 
 # ----------------------------------------------------------------------------- opcode 90: serde
 SERDE_Q = [0, 1, 2, 4, 5, 10, 12, 13, 15, 24, 25]        # catalogue entries used with serialize_satisfying ((): everything)
-MUT_PARAMS = [0, 1, 2, 3, 4, 5, 7, 100, 1 << 32, (1 << 32) + 3, (1 << 33) + 1, (2 << 32) + 7, (1 << 32) + 40, (1 << 32) - 1, (1 << 32) - 2]
+MUT_PARAMS = [0, 1, 2, 3, 4, 5, 7, 100, 1 << 32, (1 << 32) + 3, (1 << 33) + 1, (2 << 32) + 7, (1 << 32) + 40]
 
 
 def serde_case(universe, rnd, nops, malformed):
@@ -1066,10 +1066,13 @@ def serde_case(universe, rnd, nops, malformed):
                     k = rnd.random()
                     idx = rnd.randrange(0, 14) if k < 0.55 else (rnd.randrange(0, 40) if k < 0.9 else rnd.randrange(0, 110))
                     muts += [idx, rnd.choice([0, 1, 2, 3, 4, 5, 6, 7, 7, 8, 8]), rnd.choice(MUT_PARAMS)]
-                if rnd.random() < 0.12:
-                    # an announced count (entities / components of the first block, or a later number) at the u32 limit
-                    muts += [rnd.choice([2, 3, 3, 3, rnd.randrange(2, 30)]), 0, rnd.choice([(1 << 32) - 1, (1 << 32) - 1, (1 << 32) - 2])]
-            g.emit(90, w, rnd.randrange(2), rnd.randrange(2), qi, len(QASTS[qi]), QASTS[qi], len(muts) // 3, muts)
+            fmt = rnd.randrange(2)
+            if malformed and fmt == 1 and rnd.random() < 0.12:
+                # column format: the announced number of component types of the first block (pre-order node 3) at the u32
+                # limit. Nothing is allocated from that number; announced *entity* counts are kept small, because the
+                # decoder reserves storage for them (the property bounds announced sizes to allocatable ones)
+                muts = [3, 0, rnd.choice([(1 << 32) - 1, (1 << 32) - 1, (1 << 32) - 2])]      # alone: other mutations move nodes
+            g.emit(90, w, fmt, rnd.randrange(2), qi, len(QASTS[qi]), QASTS[qi], len(muts) // 3, muts)
     for w in (0, 1):
         for fmt in (0, 1):
             g.emit(90, w, fmt, rnd.randrange(2), 0, len(QASTS[0]), QASTS[0], 0)
@@ -1092,7 +1095,8 @@ SERDE_RULE = (WORLD_RULE + ". Serialisation operations on the worlds the history
               "compared with the model's; for C15 the tree is mutated (replace node by a number, drop/duplicate elements, "
               "change announced lengths, swap elements, shift numbers, replace by an empty sequence, append one element more than "
               "announced, give the second handle of a list the id of the first with the next generation; node chosen by "
-              "pre-order index) before decoding and the outcome (error / resulting world) compared with the model. "
+              "pre-order index; and, alone in its operation, the announced number of component types of the first column-format "
+              "block set to 2^32-1 or 2^32-2 - announced entity counts stay small, the decoder reserves storage for them) before decoding and the outcome (error / resulting world) compared with the model. "
               "Supporting: serde_json and bincode round trips, truncated bincode input, decoded-vs-dropped component "
               "counts, consistency and continued usability of every accepted world")
 SERDE_ASSUME = ["the user context is the documented example generalised: it handles 3 component types identified by number; "
